@@ -307,7 +307,7 @@ def corpus(tier, extra=()):
 def _corpus(tier, extra=()):
     cs = [c for c in base_corpus() if tier in c.tiers]
     fams = {"opt": opt_corpus, "magic": opt_corpus, "index": index_corpus, "choice": contract_corpus, "subsume": contract_corpus,
-            "limit": contract_corpus, "syntax": syntax_corpus, "component": component_corpus, "lattice": lattice_corpus}
+            "limit": contract_corpus, "syntax": syntax_corpus, "component": component_corpus, "lattice": lattice_corpus, "systematic": systematic_corpus}
     done = set()
     for e in extra:
         f = fams.get(e)
@@ -317,3 +317,45 @@ def _corpus(tier, extra=()):
         allowed = set(extra)
         cs += [c for c in f() if tier in c.tiers and (c.family in allowed)]
     return cs
+
+
+def systematic_corpus():
+    """every recursive rule `p(h1,h2) :- A1, A2 [, C]` up to variable renaming with A_i in {p,e} x ordered pairs of
+    distinct variables from x,y,z, connected body, at least one p atom, head variables distinct and bound; C is
+    nothing, `h1 != h2`-style constraint or a negated EDB atom.  Base rule p(x,y) :- e(x,y).  (enumeration)"""
+    import itertools
+    V = ["x", "y", "z"]
+    atoms = [(r, a, b) for r in ("p", "e") for a, b in itertools.permutations(V, 2)]
+    seen = set()
+    out = []
+    for a1, a2 in itertools.combinations_with_replacement(atoms, 2):
+        if a1 == a2:
+            continue
+        if "p" not in (a1[0], a2[0]):
+            continue
+        bv = [a1[1], a1[2], a2[1], a2[2]]
+        if not (set(a1[1:]) & set(a2[1:])):
+            continue
+        for h in itertools.permutations(sorted(set(bv)), 2):
+            # canonical renaming by first occurrence in (head, body)
+            order = []
+            for v in list(h) + bv:
+                if v not in order:
+                    order.append(v)
+            ren = {v: V[i] for i, v in enumerate(order)}
+            key = (tuple(ren[v] for v in h), tuple(sorted([(a1[0], ren[a1[1]], ren[a1[2]]), (a2[0], ren[a2[1]], ren[a2[2]])])))
+            if key in seen:
+                continue
+            seen.add(key)
+            hh = "p(%s,%s)" % (ren[h[0]], ren[h[1]])
+            body = "%s(%s,%s), %s(%s,%s)" % (a1[0], ren[a1[1]], ren[a1[2]], a2[0], ren[a2[1]], ren[a2[2]])
+            out.append((hh, body, (ren[h[0]], ren[h[1]])))
+    C = []
+    for i, (hh, body, hv) in enumerate(out):
+        for j, extra in enumerate(("", ", %s != %s" % hv, ", !e(%s,%s)" % (hv[1], hv[0]))):
+            if j and i % 3 != j:     # one constrained variant per rule, rotating
+                continue
+            text = E2 + ".decl p(x:number,y:number)\n.output p\np(x,y) :- e(x,y).\n%s :- %s%s.\n" % (hh, body, extra)
+            c = P("sys_%03d_%d" % (i, j), text, "systematic", m=2, tiers=("thorough",) if (i + j) % 5 else ("quick", "thorough"))
+            C.append(c)
+    return C
